@@ -18,7 +18,7 @@ var bufSizes = []int{0, 16, 17, 100, 4096} // 0: the chunk reader is handed to R
 var chunkClasses = []string{"short-reads", "eof-with-data", "zero-nil-read", "two-chunks"}
 
 // chunkings of one class for an encoding of n bytes.
-func chunkings(class string, n int, tier string) []chunking {
+func chunkings(class string, n int, tier string, heavy bool) []chunking {
 	switch class {
 	case "short-reads":
 		return []chunking{
@@ -37,6 +37,9 @@ func chunkings(class string, n int, tier string) []chunking {
 		// split at each of its bytes), else the first 256, every 61st and the last 64 (trailing seeds, counts)
 		var cs []chunking
 		for k := 1; k < n; k++ {
+			if heavy && tier == "quick" && !(k <= 8 || k%16 == 0 || k >= n-8) {
+				continue // parameter sets: a decode costs milliseconds
+			}
 			if n <= 1024 || tier == "thorough" && n <= 8192 || k <= 256 || k%61 == 0 || k >= n-64 {
 				cs = append(cs, chunking{name: "split", splitAt: k, zeroAt: -1})
 			}
@@ -255,7 +258,7 @@ func fragValue(x *lc, k int) {
 	}
 	class := chunkClasses[k-1]
 	x.c.Cover("frag-chunks", class)
-	chs := chunkings(class, len(x.o.wbin), x.c.Tier)
+	chs := chunkings(class, len(x.o.wbin), x.c.Tier, x.e.heavy)
 	for _, bs := range bufSizes {
 		if bad(full(bs)) {
 			continue // this buffer size fails with the whole data available: reported by leaf 0
